@@ -13,6 +13,8 @@ import (
 	"verifharness/internal/model"
 	"verifharness/internal/pbt"
 	"verifharness/internal/rec"
+	"verifharness/internal/sched"
+	"verifharness/internal/sgen"
 )
 
 // ------------------------------------------------------------ constructors
@@ -592,5 +594,107 @@ func TestCache(t *testing.T) {
 		ID: "C20", Name: "cache",
 		Rule: "rapid-generated sequences of 2..6 histogram creations under one root (root, a subscope and a tagged scope share the bucket cache) whose specifications are adversarial for the cache: identical, permuted, equal-sum perturbations (a+d,b-d) of bit patterns / nanoseconds, merged elements, duplicated bounds, and a value set and a duration set with identical element bits; samples on/next to bounds; then one report pass. Oracle: every histogram delivers and allocates exactly the reference tiling of its OWN spec, counts per bound match, spec handed to the reporter equals its own, caller slice unchanged. Non-trivial: two different specs with equal cache identity (seed + sum of 31*element) live under the root. Distinct: FNV-64 of the case JSON.",
 		Gen:  genCache, Run: runCache,
+	})
+}
+
+// ------------------------------------------------------------ bucket cache, concurrent creation
+
+type SchedCase struct {
+	Cached  bool      `json:"cached"`
+	Threads [][]HSpec `json:"threads"` // histograms created by each thread (each on its own subscope)
+	Sched   []int     `json:"sched"`
+}
+
+func genSched(t *rapid.T) SchedCase {
+	base := genCache(t)
+	c := SchedCase{Cached: base.Cached}
+	nt := rapid.IntRange(2, 3).Draw(t, "nthreads")
+	c.Threads = make([][]HSpec, nt)
+	for i, h := range base.Hists {
+		c.Threads[i%nt] = append(c.Threads[i%nt], h)
+	}
+	c.Sched = sgen.Choices(t, 80, nt)
+	return c
+}
+
+func runSched(c SchedCase) (pbt.Outcome, error) {
+	var errs pbt.Errs
+	var out pbt.Outcome
+	var log *rec.Log
+	var root tally.Scope
+	if c.Cached {
+		r := rec.NewCached()
+		log = r.L
+		root, _ = tally.VerifNewRootScope(tally.ScopeOptions{CachedReporter: r, OmitCardinalityMetrics: true}, 0, 1)
+	} else {
+		r := rec.NewStats()
+		log = r.L
+		root, _ = tally.VerifNewRootScope(tally.ScopeOptions{Reporter: r, OmitCardinalityMetrics: true}, 0, 1)
+	}
+	s := sched.New(c.Sched)
+	log.OnCall = s.Yield
+	tally.VerifSetHooks(&tally.VerifHooks{Yield: s.Yield, Lock: s.Lock})
+	defer tally.VerifSetHooks(nil)
+	type made struct {
+		name string
+		h    HSpec
+	}
+	var all []made
+	for ti, hs := range c.Threads {
+		ti, hs := ti, hs
+		sub := root.SubScope(fmt.Sprintf("t%d", ti))
+		for hi, h := range hs {
+			all = append(all, made{fmt.Sprintf("t%d.h%d", ti, hi), h})
+		}
+		s.Go(fmt.Sprintf("creator%d", ti), func() {
+			for hi, h := range hs {
+				hist := sub.Histogram(fmt.Sprintf("h%d", hi), h.buckets())
+				for _, smp := range h.Samp {
+					if h.Dur {
+						hist.RecordDuration(time.Duration(int64(smp)))
+					} else {
+						hist.RecordValue(smp.V())
+					}
+				}
+			}
+		})
+	}
+	res := s.Run()
+	tally.VerifSetHooks(nil)
+	log.OnCall = nil
+	for _, p := range res.Panics {
+		errs.Addf("panic in thread %s: %s\n%.1500s", p.Thread, p.Value, p.Stack)
+	}
+	if res.Deadlock || res.Hang || res.StepLimit {
+		errs.Addf("deadlock=%v hang=%v steplimit=%v: %s", res.Deadlock, res.Hang, res.StepLimit, res.Detail)
+		return out, errs.Err()
+	}
+	tally.VerifReportOnce(root)
+	ev := log.Events()
+	collide := false
+	for i := range all {
+		checkHist(&errs, all[i].name, all[i].h, ev, c.Cached)
+		for j := i + 1; j < len(all); j++ {
+			if identity(all[i].h) == identity(all[j].h) && !sameSpec(all[i].h, all[j].h) {
+				collide = true
+			}
+		}
+	}
+	pre := sched.PreemptedAt(res.Trace, "bucketCache.Get:")
+	out.NonTrivial = collide && pre
+	if pre {
+		out.Classes = append(out.Classes, "preempted-cache-window")
+	}
+	if collide {
+		out.Classes = append(out.Classes, "colliding-specs")
+	}
+	return out, errs.Err()
+}
+
+func TestCacheSched(t *testing.T) {
+	pbt.Main(t, pbt.Prop[SchedCase]{
+		ID: "C20", Name: "cache-sched",
+		Rule: "cooperative-scheduler mode: the adversarial (cache-colliding) histogram creations of the 'cache' mode are distributed over 2..3 threads, each creating on its own subscope of one root (shared bucket cache), with a schedule (<=80 choices) over the cache's read-unlock -> write-lock window and the reporter's allocation calls; same per-histogram own-bounds oracle. Non-trivial: two different specs with equal cache identity exist and the cache window was preempted.",
+		Gen:  genSched, Run: runSched, Retries: 10,
 	})
 }
